@@ -297,19 +297,31 @@ def rule_A2(ctx):
             raise AnalysisError(f'{c}.__init__ does not resolve')
         f = inits[0]
         body = [s for s in f.node.body if not (isinstance(s, ast.Expr) and isinstance(s.value, ast.Constant))]
+        # the claim/flag may live in a helper called unconditionally from __init__: splice the helper's body in
+        spliced = []
+        for s0 in body:
+            if isinstance(s0, ast.Expr) and isinstance(s0.value, ast.Call) and isinstance(s0.value.func, ast.Attribute) \
+                    and ast.unparse(s0.value.func.value) == 'self' and not s0.value.args:
+                hs = m.winner(c, s0.value.func.attr)
+                if len(hs) == 1 and len(hs[0].params()) == 1:
+                    spliced += [x for x in hs[0].node.body if not (isinstance(x, ast.Expr) and isinstance(x.value, ast.Constant))]
+                    continue
+            spliced.append(s0)
+        body = spliced
         if c in MUTABLE:
             claim = None
             for s in body:           # top level only: executed on every path that returns normally
                 if isinstance(s, ast.If) and ast.unparse(s.test) in ('self._bitstore.immutable', 'self._bitstore.immutable is True'):
                     inst = [x for x in s.body if isinstance(x, ast.Assign) and ast.unparse(x.targets[0]) == 'self._bitstore'
-                            and ast.unparse(x.value) == 'self._bitstore._copy()']
+                            and ast.unparse(x.value) in ('self._bitstore._copy()', 'BitStore(self._bitstore._bitarray)',
+                                                         'self._bitstore.getslice_msb0(None, None)')]
                     flag = [x for x in s.body if isinstance(x, ast.Assign) and ast.unparse(x.targets[0]) == 'self._bitstore.immutable'
                             and isinstance(x.value, ast.Constant) and x.value.value is False]
                     if inst and flag and inst[0].lineno < flag[0].lineno:
                         claim = s
                 elif isinstance(s, ast.Assign) and ast.unparse(s.targets[0]) == 'self._bitstore' and ast.unparse(s.value) == 'self._bitstore._copy()':
                     claim = s     # unconditional copy is a (stronger) claim
-            early = [x for s in body for x in ast.walk(s) if isinstance(x, ast.Return) and (claim is None or x.lineno < claim.lineno)]
+            early = [x for s in body for x in ast.walk(s) if isinstance(x, ast.Return) and (claim is None or (x.lineno < claim.lineno and any(x is y for b in f.node.body for y in ast.walk(b))))]
             if claim is None or early:
                 r.fail(f.key, f'{c}.__init__ claim', f'{c}.__init__ must replace a flagged (shared/cached/file-backed) store by its own copy and '
                        'clear the flag on every path; without it a new mutable object writes into the string cache or another object',
@@ -660,7 +672,7 @@ def rule_A3(ctx):
             if val is False:
                 # allowed inside the claim, right after installing a private copy
                 prev = [d for d in E.direct(node) if d.kind == 'install' and d.root == e.root and d.node.lineno < e.node.lineno
-                        and ast.unparse(d.value).endswith('._copy()')]
+                        and all(p[0] == 'FRESH' for p in O.prov(d.value, node))]
                 if prev:
                     r.ok(f'{f.key}:{norm(e.node)}')
                 else:
@@ -691,7 +703,14 @@ def rule_A3(ctx):
                 for (n2, cs) in callers:
                     g = m.funcs[n2[0]]
                     claim = [x for x in g.node.body if isinstance(x, ast.If) and 'immutable' in ast.unparse(x.test)]
-                    if not (g.name == '__init__' and claim and claim[0].lineno > cs.node.lineno):
+                    # ... or a helper holding the claim, called after this call
+                    for x in g.node.body:
+                        if isinstance(x, ast.Expr) and isinstance(x.value, ast.Call) and isinstance(x.value.func, ast.Attribute) \
+                                and ast.unparse(x.value.func.value) == 'self' and x.lineno > cs.node.lineno:
+                            hs = m.winner(n2[1] or node[1], x.value.func.attr) if (n2[1] or node[1]) else []
+                            if any(isinstance(y, ast.If) and 'immutable' in ast.unparse(y.test) for h in hs for y in h.node.body):
+                                claim = claim + [x]
+                    if not (g.name == '__init__' and claim and max(c0.lineno for c0 in claim) > cs.node.lineno):
                         ok = False
                 if ok:
                     r.ok(f'{f.key}:{norm(e.node)}[{node[1]}]', reason=True)
